@@ -1,6 +1,6 @@
 (* C05 - After unschedule/remove/stop returns, the removed handler is never called again. *)
 Require Import WD.Base.Prelude WD.Model.Observer WD.Proofs.ObserverProofs WD.Proofs.ObserverInv WD.Proofs.ObserverRet
-  WD.Proofs.ObserverDisp WD.Proofs.ObserverExamples.
+  WD.Proofs.ObserverDisp WD.Proofs.ObserverLive WD.Proofs.ObserverExamples.
 
 (* In every run: if a callback (h,w,_) occurs after a removal event that covers (h,w) - the mutation of
    remove_handler_for_watch (GRemoved), unschedule / a failed start (GRemovedW), unschedule_all / stop
@@ -75,9 +75,14 @@ Theorem C05_callback_under_lock : forall s t i k inp s' h w e x, reachable s -> 
 Proof. exact callback_under_lock. Qed.
 Print Assumptions C05_callback_under_lock.
 
+(* "Exited" is stable: once an emitter thread has exited it stays exited along every run. *)
+Theorem C05_exited_stable : forall e s l s', exited_at e s -> step s l = Some s' -> exited_at e s'.
+Proof. exact exited_stable. Qed.
+Print Assumptions C05_exited_stable.
+
 (* Emitter half, still partial: C05_unschedule_joins + C05_join_means_exited + C05_exited_emitter_silent give
    "unschedule stops and joins the emitter it removed, join returns only for an exited or never started
-   thread, an exited thread never puts"; not proved: that a removed, never started emitter is never started
+   thread, an exited thread never puts and stays exited (C05_exited_stable)"; not proved: that a removed, never started emitter is never started
    later (start() only starts emitters of the registry, under the lock). *)
 Definition C05_emitter_full : Prop := forall s, reachable s ->
   forall l3 e w ev l2 t l1, glog s = l3 ++ GPut e w ev :: l2 ++ GRet t (CUnschedule w) false :: l1 ->
